@@ -38,6 +38,29 @@ def identity(s):
     return s
 
 
+def poison(obj):
+    """mutate a returned container in place (a caller is free to do that)"""
+    if isinstance(obj, list):
+        obj.append("__poison__")
+        if obj:
+            obj[0] = None
+    elif isinstance(obj, dict):
+        obj["__poison__"] = 1
+
+
+def repeatable(fn):
+    """the same call, made again after the caller has mutated the first result, returns the same"""
+    import copy
+    a = call(fn)
+    keep = copy.deepcopy(a)
+    if "ret" in a:
+        poison(a["ret"])
+    b = call(fn)
+    if ("ret" in keep) != ("ret" in b) or keep.get("exc") != b.get("exc"):
+        return False
+    return "ret" not in keep or same(keep["ret"], b["ret"])
+
+
 with open(sys.argv[2]) as f, open(sys.argv[3], "w") as out:
     for line in f:
         c = json.loads(line)
@@ -68,6 +91,9 @@ with open(sys.argv[2]) as f, open(sys.argv[3], "w") as out:
                     rec["decode_ok"] = False
                 elif "ret" in raw and not same(got["ret"], json.loads(raw["ret"])):
                     rec["decode_ok"] = False
+                elif not repeatable(lambda: jsonlogic_rs.apply(*args, **kw)):
+                    rec["decode_ok"] = False
+                    rec["why"] = "a repeated call does not return a fresh, equal result"
             rec["outcome"] = raw
         else:
             vt = c["value_text"]
@@ -82,6 +108,9 @@ with open(sys.argv[2]) as f, open(sys.argv[3], "w") as out:
                     rec["decode_ok"] = False
                 elif "ret" in raw and not same(got["ret"], json.loads(raw["ret"])):
                     rec["decode_ok"] = False
+                elif not repeatable(lambda: jsonlogic_rs.apply_serialized(*args)):
+                    rec["decode_ok"] = False
+                    rec["why"] = "a repeated call does not return a fresh, equal result"
             rec["outcome"] = raw
         if "ret" in rec["outcome"] and not isinstance(rec["outcome"]["ret"], str):
             rec["decode_ok"] = False
